@@ -433,6 +433,16 @@ def _tlc_cases(ctx, module, cfg, tag, path, workers=4, timeout=900):
                 raise
     if n[0] == 0:
         raise vlib.ToolError("%s printed no CASE" % module)
+    if module == "MC_TableCodec":
+        # the cases are evaluated by several workers: put them in a fixed order (kind, index)
+        rows = []
+        with open(path) as f:
+            for line in f:
+                c = json.loads(line)
+                rows.append((c["k"], c["id"], line))
+        rows.sort(key=lambda r: (r[0], r[1]))
+        with open(path, "w") as f:
+            f.writelines(r[2] for r in rows)
     ctx.note("%s/%s: %d states generated, %d distinct, %d cases (%.1fs)" % (module, cfg, mc.generated, mc.distinct,
                                                                             n[0], mc.wall))
     return mc, n[0]
@@ -450,26 +460,24 @@ def _strip(e):
 
 
 def _plant(events):
-    """Binding self-check: corrupted copies of conforming events that the judge must reject."""
-    planted = []
+    """Binding self-check: corrupted copies of conforming events that the judge must reject (and two controls it must
+    accept).  Returns (planted events, names of plants whose base event does not exist).  A missing base is not an
+    error here: a badly broken tree may be the reason, and its violations must be reported first."""
+    planted, missing = [], []
 
-    def add(e, name):
-        e = json.loads(json.dumps(e))
-        e["case"] = "selftest-" + name
-        planted.append(e)
-        return e
-    gen_exact = next((e for e in events if e["ev"] == "Gen" and e["a"]["k"] == "head" and e["o"].get("res") == "Ok"), None)
-    gen_free = next((e for e in events if e["ev"] == "Gen" and e["a"]["k"] == "cffint" and e["o"].get("res") == "Ok"
-                     and len(e["o"]["bytes"]) == 2), None)
-    gen_back = next((e for e in events if e["ev"] == "Gen" and e["a"]["k"] == "os2" and e["o"].get("res") == "Ok"), None)
-    gen_err = next((e for e in events if e["ev"] == "Gen" and e["a"]["exp"]["res"] == "Err" and e["o"].get("res") == "Err"), None)
-    tab_small = next((e for e in events if e["ev"] == "Table" and e["a"]["k"] == "os2" and e["o"].get("small")
-                      and e["o"].get("w2") == "Ok"), None)
-    tab_big = next((e for e in events if e["ev"] == "Table" and e["a"]["k"] == "hmtx" and e["o"].get("w2") == "Ok"), None)
-    tab_cff = next((e for e in events if e["ev"] == "Table" and e["a"]["k"] == "cff" and e["o"].get("w2") == "Ok"
-                    and e["o"]["p2"]["dicts"] and e["o"]["p2"]["dicts"][0]["es"]), None)
-    wop = next((e for e in events if e["ev"] == "WOp" and e["o"].get("res") == e["a"]["exp"]["res"]
-                and len(e["o"].get("buf", [])) > len(e["a"]["free"])), None)
+    def first(pred):
+        return next((e for e in events if pred(e)), None)
+    gen_exact = first(lambda e: e["ev"] == "Gen" and e["a"]["k"] == "head" and e["o"].get("res") == "Ok")
+    gen_free = first(lambda e: e["ev"] == "Gen" and e["a"]["k"] == "cffint" and e["o"].get("res") == "Ok" and len(e["o"]["bytes"]) == 2)
+    gen_back = first(lambda e: e["ev"] == "Gen" and e["a"]["k"] == "os2" and e["o"].get("res") == "Ok")
+    gen_err = first(lambda e: e["ev"] == "Gen" and e["a"]["exp"]["res"] == "Err" and e["o"].get("res") == "Err")
+    tab_small = first(lambda e: e["ev"] == "Table" and e["a"]["k"] == "os2" and e["o"].get("small") and e["o"].get("w2") == "Ok")
+    tab_big = first(lambda e: e["ev"] == "Table" and e["a"]["k"] == "hmtx" and e["o"].get("w2") == "Ok")
+    tab_cff = first(lambda e: e["ev"] == "Table" and e["a"]["k"] == "cff" and e["o"].get("w2") == "Ok"
+                    and e["o"]["p2"]["dicts"] and e["o"]["p2"]["dicts"][0]["es"])
+    wop = first(lambda e: e["ev"] == "WOp" and e["o"].get("res") == e["a"]["exp"]["res"]
+                and len(e["o"].get("buf", [])) > len(e["a"]["free"]))
+
     def instr_not_on_last(e):
         if e["ev"] != "Gen" or e["a"]["k"] != "glyph":
             return False
@@ -479,9 +487,9 @@ def _plant(events):
         fl = [c["flags"] for c in b["comps"]]
         return len(fl) > 1 and any(f & 256 for f in fl) and not fl[-1] & 256 and len(b["instr"]) > 0
 
+    # events with the observation the SPECIFICATION prescribes (TLC's own bytes, values and facts): the plants built on
+    # them do not depend on what allsorts answered
     def as_prescribed(e):
-        """The event with the observation the specification prescribes (so that these two plants do not depend
-        on allsorts conforming exactly where they probe)."""
         if e is None:
             return None
         e = json.loads(json.dumps(e))
@@ -490,10 +498,7 @@ def _plant(events):
         if "back1" in x:
             e["o"].update({"back1": x["back1"], "rem1": 0})
         return e
-    gen_comp = as_prescribed(next((e for e in events if instr_not_on_last(e)), None))
-    gen_packed = as_prescribed(next((e for e in events if e["ev"] == "Gen" and e["a"]["k"] == "glyphp"
-                                     and len(e["a"]["exp"]["back1"]["pts"]) == 3), None))
-    # the new kinds: events as the specification prescribes them (TLC's own bytes and facts), then corrupted
+
     def prescribed_cfft(e):
         if e is None:
             return None
@@ -509,18 +514,12 @@ def _plant(events):
         x = e["a"]["exp"]
         e["o"] = {"res": "Ok", "rem1": 0, "rows1": x["rows"], "bytes": list(x["bytes"]), "rem": 0, "rows": x["rows"], "again": "same"}
         return e
-    gen_cfft = prescribed_cfft(next((e for e in events if e["ev"] == "Gen" and e["a"]["k"] == "cfft" and len(e["a"].get("src", [])) < 2000
-                                     and len(e["a"]["exp"]["facts"]["strs"]) >= 2 and e["a"]["exp"]["facts"]["gs"]), None))
-    gen_ivd = prescribed_ivd(next((e for e in events if e["ev"] == "Gen" and e["a"]["k"] == "ivd" and len(e["a"]["exp"]["bytes"]) > 8
-                                   and e["a"]["exp"]["bytes"][2] >= 128 and e["a"]["exp"]["rows"] >= 1), None))
-    if not all([gen_exact, gen_free, gen_back, gen_err, tab_small, tab_big, tab_cff, wop, gen_comp, gen_packed, gen_cfft, gen_ivd]):
-        raise vlib.ToolError("binding self-check: no conforming event to corrupt (%s)" % [
-            bool(x) for x in (gen_exact, gen_free, gen_back, gen_err, tab_small, tab_big, tab_cff, wop, gen_comp, gen_packed,
-                              gen_cfft, gen_ivd)])
-    add(gen_cfft, "gen-cfft-control-accepted")       # negative control: the prescribed event itself must be accepted
-    add(gen_ivd, "gen-ivd-control-accepted")
-    e = add(gen_cfft, "gen-cfft-string-index-shifted")   # what an unfilled reservation does: an empty INDEX where the
-    b = e["o"]["bytes"]                                  # String INDEX should be, the real one behind it
+    gen_comp = as_prescribed(first(instr_not_on_last))
+    gen_packed = as_prescribed(first(lambda e: e["ev"] == "Gen" and e["a"]["k"] == "glyphp" and len(e["a"]["exp"]["back1"]["pts"]) == 3))
+    gen_cfft = prescribed_cfft(first(lambda e: e["ev"] == "Gen" and e["a"]["k"] == "cfft" and len(e["a"].get("src", [])) < 2000
+                                     and len(e["a"]["exp"]["facts"]["strs"]) >= 2 and e["a"]["exp"]["facts"]["gs"]))
+    gen_ivd = prescribed_ivd(first(lambda e: e["ev"] == "Gen" and e["a"]["k"] == "ivd" and len(e["a"]["exp"]["bytes"]) > 8
+                                   and e["a"]["exp"]["bytes"][2] >= 128 and e["a"]["exp"]["rows"] >= 1))
 
     def skip_index(b, at):
         n = b[at] * 256 + b[at + 1]
@@ -529,46 +528,57 @@ def _plant(events):
         sz = b[at + 2]
         last = int.from_bytes(bytes(b[at + 3 + n * sz: at + 3 + (n + 1) * sz]), "big")
         return at + 3 + (n + 1) * sz + last - 1
-    at = skip_index(b, skip_index(b, b[2]))
-    e["o"]["bytes"] = b[:at] + [0, 0] + b[at:]
-    e = add(gen_cfft, "gen-cfft-reread-lost-string")     # allsorts' own second reading lost the strings
-    e["o"]["back"]["strs"] = []
-    e = add(gen_cfft, "gen-cfft-first-read")
-    e["o"]["back1"]["gs"] = e["o"]["back1"]["gs"][1:]
-    e = add(gen_ivd, "gen-ivd-long-words-flag-lost")      # bit 15 of wordDeltaCount dropped by the writer
-    e["o"]["bytes"][2] -= 128
-    e = add(gen_ivd, "gen-ivd-rows")
-    e["o"]["rows"] += 1
-    e = add(gen_comp, "gen-composite-instructions-dropped")   # the block is gone, the flag words still announce it
-    n_i = len(e["a"]["exp"]["back"]["instr"])
-    e["o"]["bytes"] = e["o"]["bytes"][:-(n_i + 2)]
-    e = add(gen_packed, "gen-packed-first-read")   # the packed bytes were read as a different outline
-    e["o"]["back1"]["pts"][1][1] += 1
-    e = add(gen_packed, "gen-packed-flag-lost")    # ON_CURVE of the last point lost on the way through the writer
-    e["o"]["back"]["pts"][2][0] ^= 1
-    e = add(gen_exact, "gen-bytes")
-    e["o"]["bytes"][-1] = (e["o"]["bytes"][-1] + 1) % 256
-    e = add(gen_free, "gen-int")                    # 2-byte integer with its second byte off by one
-    e["o"]["bytes"][1] = (e["o"]["bytes"][1] + 1) % 256
-    e = add(gen_back, "gen-back")
-    e["o"]["back"]["wgt"] = (e["o"]["back"]["wgt"] + 1) % 65536
-    e = add(gen_err, "gen-not-refused")
-    e["o"]["res"] = "Ok"
-    e = add(tab_small, "table-small")
-    e["o"]["p2"]["wgt"] = (e["o"]["p2"]["wgt"] + 1) % 65536
-    e = add(tab_small, "table-bytes")              # allsorts' bytes are not the ones Enc prescribes
-    e["o"]["b1"][-1] = (e["o"]["b1"][-1] + 1) % 256
-    e = add(tab_small, "table-orig")               # the spec's decoder must read the original as allsorts did
-    e["o"]["orig"][3] = (e["o"]["orig"][3] + 1) % 256
-    e = add(tab_big, "table-unstable")
-    e["o"]["d2"] = "0" + e["o"]["d2"][1:] if e["o"]["d2"][0] != "0" else "1" + e["o"]["d2"][1:]
-    e = add(tab_cff, "table-dict")
-    e["o"]["p2"]["dicts"][0]["es"] = e["o"]["p2"]["dicts"][0]["es"][1:]          # an entry lost
-    e = add(wop, "wop-bytes")
-    free = set(e["a"]["free"])
-    k = next(i for i in range(len(e["o"]["buf"])) if (i + 1) not in free)
-    e["o"]["buf"][k] = (e["o"]["buf"][k] + 1) % 256
-    return planted
+
+    def bump(lst, i, mod=256):
+        lst[i] = (lst[i] + 1) % mod
+
+    def ed_shift(e):        # what an unfilled reservation does: an empty INDEX where the String INDEX should be,
+        b = e["o"]["bytes"]  # the real one behind it
+        at = skip_index(b, skip_index(b, b[2]))
+        e["o"]["bytes"] = b[:at] + [0, 0] + b[at:]
+
+    def ed_instr(e):        # the instruction block is gone, the flag words still announce it
+        n_i = len(e["a"]["exp"]["back"]["instr"])
+        e["o"]["bytes"] = e["o"]["bytes"][:-(n_i + 2)]
+
+    def ed_wop(e):
+        free = set(e["a"]["free"])
+        k = next(i for i in range(len(e["o"]["buf"])) if (i + 1) not in free)
+        bump(e["o"]["buf"], k)
+
+    def ed_d2(e):
+        e["o"]["d2"] = ("0" if e["o"]["d2"][0] != "0" else "1") + e["o"]["d2"][1:]
+    plants = [
+        ("gen-cfft-control-accepted", gen_cfft, lambda e: None),      # negative controls: the prescribed event itself
+        ("gen-ivd-control-accepted", gen_ivd, lambda e: None),
+        ("gen-cfft-string-index-shifted", gen_cfft, ed_shift),
+        ("gen-cfft-reread-lost-string", gen_cfft, lambda e: e["o"]["back"].update(strs=[])),   # allsorts' second reading
+        ("gen-cfft-first-read", gen_cfft, lambda e: e["o"]["back1"].update(gs=e["o"]["back1"]["gs"][1:])),
+        ("gen-ivd-long-words-flag-lost", gen_ivd, lambda e: e["o"]["bytes"].__setitem__(2, e["o"]["bytes"][2] - 128)),
+        ("gen-ivd-rows", gen_ivd, lambda e: e["o"].update(rows=e["o"]["rows"] + 1)),
+        ("gen-composite-instructions-dropped", gen_comp, ed_instr),
+        ("gen-packed-first-read", gen_packed, lambda e: bump(e["o"]["back1"]["pts"][1], 1, 1 << 20)),   # a different outline
+        ("gen-packed-flag-lost", gen_packed, lambda e: e["o"]["back"]["pts"][2].__setitem__(0, e["o"]["back"]["pts"][2][0] ^ 1)),
+        ("gen-bytes", gen_exact, lambda e: bump(e["o"]["bytes"], -1)),
+        ("gen-int", gen_free, lambda e: bump(e["o"]["bytes"], 1)),              # 2-byte integer, second byte off by one
+        ("gen-back", gen_back, lambda e: e["o"]["back"].update(wgt=(e["o"]["back"]["wgt"] + 1) % 65536)),
+        ("gen-not-refused", gen_err, lambda e: e["o"].update(res="Ok")),
+        ("table-small", tab_small, lambda e: e["o"]["p2"].update(wgt=(e["o"]["p2"]["wgt"] + 1) % 65536)),
+        ("table-bytes", tab_small, lambda e: bump(e["o"]["b1"], -1)),           # not the bytes Enc prescribes
+        ("table-orig", tab_small, lambda e: bump(e["o"]["orig"], 3)),           # the spec must read the original as allsorts did
+        ("table-unstable", tab_big, ed_d2),
+        ("table-dict", tab_cff, lambda e: e["o"]["p2"]["dicts"][0].update(es=e["o"]["p2"]["dicts"][0]["es"][1:])),   # an entry lost
+        ("wop-bytes", wop, ed_wop),
+    ]
+    for name, base, edit in plants:
+        if base is None:
+            missing.append(name)
+            continue
+        e = json.loads(json.dumps(base))
+        e["case"] = "selftest-" + name
+        edit(e)
+        planted.append(e)
+    return planted, missing
 
 
 def run(ctx):
@@ -605,7 +615,8 @@ def run(ctx):
     for p in (wtrace, gtrace, ttrace):
         events.extend(vlib.read_ndjson(p))
     n_real = len(events)
-    events.extend(_plant(events))
+    planted_events, plants_missing = _plant(events)
+    events.extend(planted_events)
     for i, e in enumerate(events):
         e["i"] = i
     trace = ctx.path("trace.ndjson")
@@ -648,9 +659,16 @@ def run(ctx):
     all_planted = {e["case"] for e in events[n_real:]}
     controls = {c for c in all_planted if c.endswith("-control-accepted")}
     want_planted = all_planted - controls
+    selfcheck_error = None
     if planted_seen != want_planted:
-        raise vlib.ToolError("binding self-check failed: Trace_Codec accepted corrupted events %s, rejected controls %s" %
-                             (sorted(want_planted - planted_seen), sorted(planted_seen & controls)))
+        selfcheck_error = "binding self-check failed: Trace_Codec accepted corrupted events %s, rejected controls %s" % (
+            sorted(want_planted - planted_seen), sorted(planted_seen & controls))
+    elif plants_missing:
+        selfcheck_error = "binding self-check: no conforming event to corrupt for %s" % plants_missing
+    if selfcheck_error and not violations:
+        raise vlib.ToolError(selfcheck_error)
+    if selfcheck_error:
+        ctx.note(selfcheck_error + " (violations present: reported first)")
 
     # ---- vacuity
     gen_kinds, gen_refused, gen_canonical = {}, {}, {}
@@ -667,18 +685,24 @@ def run(ctx):
             tab_kinds[k] = tab_kinds.get(k, 0) + 1
             if e["o"].get("small"):
                 tab_small[k] = tab_small.get(k, 0) + 1
+    # (decided after the violations: a broken tree may be the very reason an event kind is missing)
+    vacuous = []
     missing = [k for k in REQUIRED_GEN_KINDS if not gen_kinds.get(k)] + \
               ["table:" + k for k in REQUIRED_TABLE_KINDS if not tab_kinds.get(k)]
     if missing:
-        raise vlib.ToolError("vacuous: no event for %s" % missing)
+        vacuous.append("no event for %s" % missing)
     for k in ("loca", "post", "name", "cmapsub", "glyph", "encoding", "fdselect"):
         if not gen_refused.get(k):
-            raise vlib.ToolError("vacuous: no oversize value generated for %s" % k)
+            vacuous.append("no oversize value generated for %s" % k)
     if wrep.get("read_backs", 0) == 0 or wrep.get("relational_events", 0) == 0:
-        raise vlib.ToolError("vacuous: writer replay without read-backs / refusals")
+        vacuous.append("writer replay without read-backs / refusals")
+    if vacuous and not violations:
+        raise vlib.ToolError("vacuous: " + "; ".join(vacuous))
+    if vacuous:
+        ctx.note("vacuity (violations present: reported first): " + "; ".join(vacuous))
 
-    sample_gen = next(e for e in events if e["ev"] == "Gen" and e["a"]["k"] == "maxp")
-    sample_tab = next(e for e in events if e["ev"] == "Table" and e["a"]["k"] == "hhea")
+    sample_gen = next((e for e in events if e["ev"] == "Gen" and e["a"]["k"] == "maxp"), events[0])
+    sample_tab = next((e for e in events if e["ev"] == "Table" and e["a"]["k"] == "hhea"), events[-1])
     coverage = {
         "states": mcw.distinct + mcc.distinct,
         "transitions": wrep.get("ops_executed", 0) + n_ccases,
